@@ -57,12 +57,21 @@ def arithBin : List String := ["Add", "Sub", "Mult", "Div", "Pow"]
 def arithUn : List String := ["USub", "UAdd"]
 def numericTypes : List String := ["int", "float", "double"]
 
+/-- the call has as many arguments as the `<cmath>` function of that name has parameters -/
+def arityOk (f : String) (n : Nat) : Bool :=
+  match meaningPy f with
+  | some m => m.params.length == n
+  | none => false
+
+/-- the function of that name takes only by-value parameters: a query can call it at all -/
+def byValue (f : String) : Bool := (meaningPy f).any MathFn.callableByValue
+
 /- `Documented readme e`: a scalar expression built from numeric operands, calls of documented
 functions (whose direct arguments may also be string constants: `nan("")`) and arithmetic. -/
 mutual
 def Documented (readme : List String) : PExpr → Bool
   | .leaf _ ty => ty ∈ numericTypes
-  | .call f args => f ∈ readme && DocumentedArgs readme args
+  | .call f args => f ∈ readme && arityOk f args.length && DocumentedArgs readme args
   | .bin op l r => op ∈ arithBin && Documented readme l && Documented readme r
   | .un op e => op ∈ arithUn && Documented readme e
 def DocumentedArgs (readme : List String) : List PExpr → Bool
@@ -95,7 +104,8 @@ def neededHeaders (e : PExpr) : List String :=
 def SpecTermOk (e : PExpr) (term : CExpr) (ty : String) (incs : List String) : Bool :=
   Sym.beq (csym term) (psym e) &&
   (neededHeaders e).all (· ∈ incs) &&
-  ty ∈ numericTypes
+  ty ∈ numericTypes &&
+  (calledNames e).all byValue
 
 /-- The property on the model's result type. -/
 def SpecTerm (readme : List String) (e : PExpr) (res : Except TrErr CVal) : Bool :=
@@ -118,12 +128,13 @@ def callOk (c : Cfg) (f : String) (tys : List CT) : Bool :=
   match findKnown c.table c.env f with
   | .ok (some r) =>
     (meaningPy f).isSome && meaningCpp r.cpp == meaningPy f &&
-    CT.ofName r.ret == cppRet r.cpp tys && (CT.ofName r.ret == .int || CT.ofName r.ret == .dbl)
+    CT.ofName r.ret == cppRet r.cpp tys && (CT.ofName r.ret == .int || CT.ofName r.ret == .dbl) &&
+    byValue f
   | _ => false
 
 /- `Scoped c e`: the inputs for which the full statement is proved: operands of type `int` or
 `double` (single precision is outside the abstraction), operators `+ - * / **` and unary `+ -`,
-every call satisfies `callOk`. -/
+every call satisfies `callOk` (resolves to its namesake, declared type = C++ type, by-value). -/
 mutual
 def Scoped (c : Cfg) : PExpr → Bool
   | .leaf _ ty => ty == "int" || ty == "double"
@@ -305,6 +316,7 @@ def SpecEmit (c : Cfg) (readme : List String) (leaves : List (String × String))
         if SpecTermOk e t o.declTy o.incs then (true, "")
         else if !Sym.beq (csym t) (psym e) then (false, "the emitted C++ does not mean what the query means (function or operation differs)")
         else if !(neededHeaders e).all (· ∈ o.incs) then (false, "a needed header is not included")
+        else if !(calledNames e).all byValue then (false, "a function that needs an output parameter cannot be called from a query")
         else (false, "the result is not of an arithmetic type")
 
 end FaxVerif.C12
